@@ -39,11 +39,12 @@ if [ "$id" = C15 ] && [ -z "${VERIF_NO_RACEPASS:-}" ]; then
     fi
     mv -f "$rp.$$" "$rp"
   fi
-  ls -1t .build/racepass-* 2>/dev/null | tail -n +3 | xargs -r rm -f
+  ls -1t .build/racepass-* 2>/dev/null | tail -n +3 | while read f; do [ -n "$(find "$f" -maxdepth 0 -mmin +120)" ] && rm -f "$f"; done
   export VERIF_RACEPASS=/verif/$rp
 fi
 # keep the build directory small: drop overlays and binaries other than the 3 most recent
-ls -1dt .build/ov/*/ 2>/dev/null | tail -n +4 | xargs -r rm -rf
-ls -1t .build/check-* 2>/dev/null | tail -n +4 | xargs -r rm -f
+# (only entries older than two hours: a concurrent run may still be using a recent one)
+ls -1dt .build/ov/*/ 2>/dev/null | tail -n +4 | while read d; do [ -n "$(find "$d" -maxdepth 0 -mmin +120)" ] && rm -rf "$d"; done
+ls -1t .build/check-* 2>/dev/null | tail -n +4 | while read f; do [ -n "$(find "$f" -maxdepth 0 -mmin +120)" ] && rm -f "$f"; done
 if [ -n "$modflag" ]; then "$bin" "$id" -tier "$tier" "$@"; exit $?; fi
 exec "$bin" "$id" -tier "$tier" "$@"
